@@ -13,7 +13,7 @@ na = json.load(open(na_path)) if os.path.exists(na_path) else {}
 for p in props:
     pid = p['id']
     up = os.path.join(V, 'specs', pid, 'units.py')
-    if not os.path.exists(up) or pid in na:
+    if not os.path.exists(up) or pid in na or not os.path.exists(os.path.join(V, 'specs', pid, 'READY')):
         m['not_applicable'].append({"property_id": pid, "reason": na.get(pid, "check under construction (contract units not yet built); see DESIGN.md section 5")})
         continue
     spec = importlib.util.spec_from_file_location('u_' + pid, up); mod = importlib.util.module_from_spec(spec); spec.loader.exec_module(mod)
